@@ -27,6 +27,12 @@ def main():
         print('replaying', data.get('signature'), '-', data.get('what'))
         mod.replay(data.get('case', data))
         return 0
+    # children of the driven scenarios print tracebacks of the faults we inject: keep them out of the way
+    logdir = common.REPLAYS / pid
+    logdir.mkdir(parents=True, exist_ok=True)
+    sys.stderr.flush()
+    fd = os.open(str(logdir / 'stderr.log'), os.O_WRONLY | os.O_CREAT | os.O_TRUNC)
+    os.dup2(fd, 2)
     tier = os.environ.get('VERIF_TIER') or sys.argv[2]
     if tier not in ('quick', 'thorough'):
         tier = sys.argv[2]
